@@ -40,6 +40,10 @@ def eval (op : String) (args : List Sexp) : Option (Res Int) := do
       match num2dtQ (← quartersOf x) with
       | .abs r => pure r
       | .rel _ => none
+  -- `npymd <ky> <km> <kd> y m d [h mi s]`: the same parts, each held by a python int (`int`) or a numpy integer of the named width
+  -- (np.int8 … np.int64, which must hold the value): an integer is an integer (`is_int` admits them; defect C04-D7)
+  | "npymd", [_, _, _, y, m, d] => pure (dtYmd (← intOf y) (← intOf m) (← intOf d) 0 0 0)
+  | "npymd", [_, _, _, y, m, d, h, mi, s] => pure (dtYmd (← intOf y) (← intOf m) (← intOf d) (← intOf h) (← intOf mi) (← intOf s))
   | "ym", [y, m] => pure (dtYm (← intOf y) (← intOf m))
   | "ymd", [y, m, d] => pure (dtYmd (← intOf y) (← intOf m) (← intOf d) 0 0 0)
   | "ymd", [y, m, d, h] => pure (dtYmd (← intOf y) (← intOf m) (← intOf d) (← intOf h) 0 0)
